@@ -41,6 +41,60 @@ func render(fset *token.FileSet, n ast.Node) string {
 	return strings.Join(strings.Fields(b.String()), " ")
 }
 
+// norm renders an expression with identifiers blanked (so a renamed local does not matter) but operators,
+// literals, field / method names and call structure kept (so a changed comparison, constant or guard does).
+func norm(e ast.Expr) string {
+	switch x := e.(type) {
+	case *ast.BinaryExpr:
+		return "(" + norm(x.X) + " " + x.Op.String() + " " + norm(x.Y) + ")"
+	case *ast.UnaryExpr:
+		return x.Op.String() + norm(x.X)
+	case *ast.ParenExpr:
+		return norm(x.X)
+	case *ast.BasicLit:
+		return x.Value
+	case *ast.Ident:
+		if x.Name == "nil" || x.Name == "true" || x.Name == "false" {
+			return x.Name
+		}
+		return "_"
+	case *ast.SelectorExpr:
+		return norm(x.X) + "." + x.Sel.Name
+	case *ast.IndexExpr:
+		return norm(x.X) + "[" + norm(x.Index) + "]"
+	case *ast.StarExpr:
+		return "*" + norm(x.X)
+	case *ast.CallExpr:
+		var as []string
+		for _, a := range x.Args {
+			as = append(as, norm(a))
+		}
+		return norm(x.Fun) + "(" + strings.Join(as, ",") + ")"
+	}
+	return "?"
+}
+
+// skeleton lists, in source order, every `if` condition and every `return` of a function body (normalised).
+func skeleton(body *ast.BlockStmt) []string {
+	var out []string
+	ast.Inspect(body, func(n ast.Node) bool {
+		switch x := n.(type) {
+		case *ast.FuncLit:
+			return false // deferred / spawned closures are not part of the decision
+		case *ast.IfStmt:
+			out = append(out, "if "+norm(x.Cond))
+		case *ast.ReturnStmt:
+			var rs []string
+			for _, r := range x.Results {
+				rs = append(rs, norm(r))
+			}
+			out = append(out, "return "+strings.Join(rs, ","))
+		}
+		return true
+	})
+	return out
+}
+
 func main() {
 	repo := "/repo"
 	for _, a := range os.Args[1:] {
@@ -97,6 +151,9 @@ func main() {
 	seqOf := map[string]bool{"insertBlock": true, "remove": true, "ensureChainConsistency": true, "updateTxPool": true,
 		"removeFromCommonAncestor": true, "updateLastBlock": true, "saveStates": true, "triggerOnChain": true, "tryAddBlockOnChain": true}
 	seqs := map[string][]string{}
+	skelOf := map[string]bool{"chainPvGreatThanRemote": true, "getRequestIdFromTransactions": true, "nextPvGreatThanFork": true,
+		"verifyBlock": true, "consensusVerify": true}
+	skels := map[string][]string{}
 	var callers, writers, caps, flagReads, globalWrites [][2]string
 	onPath := map[string]bool{"AddBlockOnChain": true, "consensusVerify": true, "addBlockOnChain": true, "verifyBlock": true, "checkStates": true,
 		"insertBlock": true, "saveBlockByHash": true, "saveBlockByHeight": true, "saveStates": true, "updateVerifyHash": true,
@@ -127,6 +184,9 @@ func main() {
 						e[n.Name] = typeName(p.Type)
 					}
 				}
+			}
+			if skelOf[fd.Name.Name] {
+				skels[fd.Name.Name] = skeleton(fd.Body)
 			}
 			fname := fd.Name.Name
 			if recvT != "" {
@@ -272,6 +332,23 @@ func main() {
 		for i, c := range seqs[k] {
 			sep := ","
 			if i == len(seqs[k])-1 {
+				sep = ""
+			}
+			out.WriteString("  " + q(c) + sep + "\n")
+		}
+		out.WriteString("]\n\n")
+	}
+	sk := make([]string, 0, len(skels))
+	for k := range skels {
+		sk = append(sk, k)
+	}
+	sort.Strings(sk)
+	for _, k := range sk {
+		out.WriteString("/-- guards and returns of `" + k + "` in source order, identifiers blanked -/\n")
+		out.WriteString("def " + k + "Skeleton : List String := [\n")
+		for i, c := range skels[k] {
+			sep := ","
+			if i == len(skels[k])-1 {
 				sep = ""
 			}
 			out.WriteString("  " + q(c) + sep + "\n")
